@@ -3,6 +3,7 @@ package main
 import (
 	"bytes"
 	"encoding/json"
+	"errors"
 	"fmt"
 	"reflect"
 	"strings"
@@ -287,8 +288,95 @@ func c16orderedTargets(rng *sx.Rng, n int) {
 	}
 }
 
+// c16edges: null zeroes what it is unmarshalled into, whatever that is; nil and non-pointer destinations are
+// refused with the documented errors (a fixed table)
+func c16edges() {
+	fail := func(what, msg string) { oracleFail("C16", "edge", sx.A(what), msg) }
+	try := func(what string, f func() string) {
+		defer func() {
+			if r := recover(); r != nil {
+				fail(what, fmt.Sprintf("panic: %v", r))
+			}
+		}()
+		if msg := f(); msg != "" {
+			fail(what, msg)
+		} else {
+			stat("C16", "edge-cases")
+		}
+	}
+	try("null into a struct", func() string {
+		v := T1{A: "x", B: 3, C: true, D: 1.5}
+		if err := ordered.Unmarshal(nil, &v); err != nil || v != (T1{}) {
+			return fmt.Sprintf("got %+v err %v, want the zero struct", v, err)
+		}
+		return ""
+	})
+	try("null into a pointer field", func() string {
+		p := &T1{A: "x"}
+		if err := ordered.Unmarshal(nil, &p); err != nil || p != nil {
+			return fmt.Sprintf("got %+v err %v, want a nil pointer", p, err)
+		}
+		return ""
+	})
+	try("null into a map", func() string {
+		m := map[string]any{"a": 1}
+		if err := ordered.Unmarshal(nil, &m); err != nil || m != nil {
+			return fmt.Sprintf("got %v err %v, want a nil map", m, err)
+		}
+		return ""
+	})
+	try("null into a string, a slice, an any", func() string {
+		st, sl, an := "x", []string{"a"}, any(3)
+		e1, e2, e3 := ordered.Unmarshal(nil, &st), ordered.Unmarshal(nil, &sl), ordered.Unmarshal(nil, &an)
+		if e1 != nil || e2 != nil || e3 != nil || st != "" || sl != nil || an != nil {
+			return fmt.Sprintf("got %q %v %v (errors %v %v %v), want zero values", st, sl, an, e1, e2, e3)
+		}
+		return ""
+	})
+	try("nil destinations", func() string {
+		if err := ordered.Unmarshal(nil, nil); err != nil {
+			return fmt.Sprintf("nil into nil: %v", err)
+		}
+		if err := ordered.Unmarshal("x", nil); !errors.Is(err, ordered.ErrIntoNil) {
+			return fmt.Sprintf("a value into nil: %v, want ErrIntoNil", err)
+		}
+		if err := ordered.Unmarshal("x", (*string)(nil)); !errors.Is(err, ordered.ErrIntoNil) {
+			return fmt.Sprintf("a value into a typed nil pointer: %v, want ErrIntoNil", err)
+		}
+		if err := ordered.Unmarshal(nil, (*string)(nil)); err != nil {
+			return fmt.Sprintf("nil into a typed nil pointer: %v", err)
+		}
+		m := ordered.NewMap[string, any](0)
+		m.Set("a", "x")
+		if err := ordered.Unmarshal(m, (*T1)(nil)); !errors.Is(err, ordered.ErrIntoNil) {
+			return fmt.Sprintf("a mapping into a typed nil struct pointer: %v, want ErrIntoNil", err)
+		}
+		return ""
+	})
+	try("non-pointer destinations", func() string {
+		if err := ordered.Unmarshal(nil, T1{}); !errors.Is(err, ordered.ErrIntoNonPointer) {
+			return fmt.Sprintf("nil into a struct value: %v, want ErrIntoNonPointer", err)
+		}
+		if err := ordered.Unmarshal("x", "y"); err == nil {
+			return "a string into a string value: no error"
+		}
+		m := ordered.NewMap[string, any](0)
+		m.Set("a", "x")
+		if err := ordered.Unmarshal(m, T1{}); err == nil {
+			return "a mapping into a struct value: no error"
+		}
+		// a map value (not a pointer to one) is a usable destination when it is non-nil
+		dst := map[string]any{"keep": 1}
+		if err := ordered.Unmarshal(m, dst); err != nil || dst["a"] != "x" || dst["keep"] != 1 {
+			return fmt.Sprintf("a mapping into a non-nil map value: %v err %v", dst, err)
+		}
+		return ""
+	})
+}
+
 func init() {
 	props["C16"] = func(rng *sx.Rng, thorough bool) {
+		c16edges()
 		if thorough {
 			c16orderedTargets(rng, 5000)
 		} else {
@@ -339,6 +427,30 @@ func init() {
 				stat("C16", "unmarshal-error")
 			}
 			fmt.Fprintf(out, "CASE\tC16\t%s\t%s\t1\n", sx.String(c), sx.String(obs))
+			// the source may also be the YAML node itself, by pointer or by value: same outcome
+			if i%4 == 1 {
+				var n yaml.Node
+				if yaml.Unmarshal([]byte(text), &n) == nil && n.Kind == yaml.DocumentNode {
+					for vi, src := range []any{&n, n} {
+						dstN := reflect.New(ty.t).Interface()
+						var nerr error
+						func() {
+							defer func() {
+								if r := recover(); r != nil {
+									nerr = fmt.Errorf("panic: %v", r)
+								}
+							}()
+							nerr = ordered.Unmarshal(src, dstN)
+						}()
+						nb, _ := json.Marshal(dstN)
+						if (nerr == nil) != (uerr == nil) || uerr == nil && string(nb) != string(ob) {
+							oracleFail("C16", "node-source-differs", short, fmt.Sprintf("from the YAML node (%s) the result is %s (err %v), from the decoded document %s (err %v)", []string{"pointer", "value"}[vi], nb, nerr, ob, uerr))
+							break
+						}
+						stat("C16", "node-source")
+					}
+				}
+			}
 			// the source may be any ordered map, also one with history: the same live entries in a map that
 			// still carries tombstones (a deleted junk key, below the compaction threshold) must decode alike
 			if src, ok := a.(*ordered.MapSA); ok && src.Len() >= 2 && i%3 == 0 {
